@@ -36,13 +36,15 @@ CLAIMS = {
         "DESIGN.md §4 C02"),
     "C03": (
         "symbolic interpretation of parse_v3: loop structure, exit conditions, yield order, tag-dispatch effects mapped to "
-        "module constants, accumulate-vs-overwrite classification",
+        "module constants, accumulate-vs-overwrite classification; the tag scanner reduced to a machine and decided by a "
+        "sliding-window theorem or by product exploration with the tag's Knuth-Morris-Pratt automaton",
         "Decides structural clauses: one unconditional from_kd_buf(read(64)) yield in a loop over chunk_size // 64 inside a "
         "chunk loop left exactly when the next 8 bytes are not MORE_EVENTS; thread map installed before the first event; logs "
         "after all events; every TRACEV3_* constant either used by the scan or dispatched to the state of its name; "
         "list-valued sections accumulate and all are reset per parse; log records decoded in order with the inverted string "
-        "index and the guarded table extension.",
-        "Agreement of the tag scan with real stackshot contents, the seek(-8,1) rewind and the Select fallback depend on file "
+        "index and the guarded table extension; seek_until stops right after the FIRST occurrence of each tag the parser "
+        "passes and raises at end of stream (for any stream; a wrong scanner is reported with the shortest witness stream).",
+        "Scanners outside the two decided families (block reads, nested loops) give exit 2. Agreement of the tag scan with real stackshot contents, the seek(-8,1) rewind and the Select fallback depend on file "
         "bytes and are not decided.",
         "DESIGN.md §4 C03"),
     "C04": (
@@ -102,7 +104,8 @@ CLAIMS = {
         "Decided in full for the call part: for each of the ~400 BSC_/MSC_ registry keys the rendered text is derived as "
         "a template whose holes are symbolic expressions over the START/END words; every hole at call position p is shown "
         "to depend on START word p only (value dependence), on no END/other record/table, and numeric holes are shown to "
-        "be the word itself in decimal/hex/signed form. One fact covers all four-argument tuples and all END records of a "
+        "be the full 64-bit word itself in decimal/hex/signed form (any spelling of a two's-complement view is recognised; "
+        "a view of fewer than 64 bits is a violation unless it is the one frozen exception). One fact covers all four-argument tuples and all END records of a "
         "decoder, which sampling cannot.",
         "Trusts the symbolic interpreter's model of the Python subset used (f-strings, conditional expressions, tuple "
         "unpacking, starred slices of the 4-word values tuple, inlined helper functions); symbolic decoders "
@@ -125,7 +128,8 @@ CLAIMS = {
         "condition leaves a residual test on the word (bit test or masked-field equality) that is judged for all word values "
         "at once - shown names have all their bits set, every declared value of a masked field is enumerated (taking into "
         "account what iterating an enum.Flag class yields on the interpreter in use), every declared single bit is tested. "
-        "The ioctl split is shown to be the exact inverse of _IOC with disjoint fields covering 32 bits.",
+        "The ioctl split is shown to be the exact inverse of _IOC with disjoint fields covering 32 bits; the fields a "
+        "decoder cuts out of one record word by shifts and masks are shown pairwise disjoint.",
         "Reference values are transcriptions of XNU headers (vstatic/oracles/darwin.py). The access-mode selection loop of "
         "serialize_open_flags (first match wins + for/else) is not decided for the undefined value 3.",
         "DESIGN.md §4 C11"),
@@ -135,7 +139,9 @@ CLAIMS = {
         "the set of (condition, predicate) pairs is shown equal (modulo commutativity, negation normal form, inlined helpers) "
         "to the specification read off the property. Given that filter() yields exactly the order- and "
         "multiplicity-preserving matching subsequence, this covers all streams x all filter configurations, including "
-        "tid 0 and empty lists. CLI option wiring is checked as well.",
+        "tid 0 and empty lists. No facade method rebinds or updates (in-place `+=` on an alias included) the filter_* "
+        "objects the predicates read, so the statement also holds after any history of other requests. CLI option wiring "
+        "is checked as well.",
         "Trusts filter()/generator-expression semantics; predicates outside the small recognised language give exit 2.",
         "DESIGN.md §4 C12"),
     "C13": (
@@ -179,11 +185,15 @@ CLAIMS = {
         "one confirmed on the reviewed tree; the firehose bit layout is transcribed from libdispatch's tracepoint header.",
         "DESIGN.md §4 C16"),
     "C18": (
-        "forbidden-source scan over resolved names (imports and aliases resolved per module), keyed by (function, API)",
+        "forbidden-source scan over resolved names (imports and aliases resolved per module) + reference-graph reachability "
+        "from every registry decoder; findings keyed by (decoder, host table)",
         "Decided as a who-may-use rule: every expression in the decoding/formatting modules that resolves to the running "
-        "interpreter's errno/signal/socket/platform tables is enumerated; the ten existing uses are genuine defects recorded "
-        "as known findings (repair needs Darwin tables), any other use is a violation. Quantifies over all hosts because it "
-        "removes the dependence rather than sampling hosts.",
+        "interpreter's errno/signal/socket/platform tables is enumerated and attributed to the registry decoders that can reach "
+        "it (through helpers, result classes, their methods, module constants). The existing dependences (347 decoders on "
+        "errno.errorcode, 3 on the socket enums, 2 on SOL_SOCKET, 1 on signal.Signals) are genuine defects recorded as known "
+        "findings (repair needs Darwin tables); a decoder that newly depends on a host table, or a new table, is a violation, "
+        "while moving a use into a helper changes nothing. Quantifies over all hosts because it removes the dependence rather "
+        "than sampling hosts.",
         "Dynamic access (getattr/importlib) is not modelled - the package uses none; an embedded fixture must be flagged on "
         "every run.",
         "DESIGN.md §4 C18"),
